@@ -72,9 +72,18 @@ func (t *websocketTransport) Send(ctx context.Context, e envelope) error {
 	case <-ctx.Done():
 		// Effectively fails all pending write operations before returning.
 		// Note that this makes the encoder to be in a permanent error state.
-		_ = conn.SetWriteDeadline(time.Now())
-		<-errChan
-		return fmt.Errorf("ws transport: send: %w", ctx.Err())
+		// The websocket deadline applies only to the next frame, so the deadline of the underlying
+		// connection is set as well, to interrupt a write that is blocked by a peer that is not reading
+		// (repeatedly, since a frame write that is starting may reset it).
+		for {
+			_ = conn.SetWriteDeadline(time.Now())
+			_ = conn.UnderlyingConn().SetWriteDeadline(time.Now())
+			select {
+			case <-errChan:
+				return fmt.Errorf("ws transport: send: %w", ctx.Err())
+			case <-time.After(50 * time.Millisecond):
+			}
+		}
 	case err := <-errChan:
 		if err != nil {
 			return fmt.Errorf("ws transport: send: %w", err)
